@@ -113,19 +113,19 @@ type ExtSpec struct {
 
 // ExtractRec records one Extract call as seen at the plugin seam.
 type ExtractRec struct {
-	Ext      string
-	Root     string // root label
-	Path     string
-	InfoSize int64
-	InfoMode string
-	Bytes    int
-	Digest   string
-	Err      string
-	NPkgs    int
-	Pkgs     []string // identity strings of the packages returned
-	SeqBegin int
-	SeqEnd   int
-	ScanRoot string // input.Root as given by the engine
+	Ext           string
+	Root          string // root label
+	Path          string
+	InfoSize      int64
+	InfoMode      string
+	Bytes         int
+	Digest        string
+	Err           string
+	NPkgs         int
+	Pkgs          []string // identity strings of the packages returned
+	SeqBegin      int
+	SeqEnd        int
+	ScanRoot      string // input.Root as given by the engine
 	CtxErrAtStart bool
 }
 
@@ -326,11 +326,11 @@ func (e *simStandalone) Extract(ctx context.Context, input *standalone.ScanInput
 
 // FindingSpec defines one finding a harness detector returns.
 type FindingSpec struct {
-	Ref     string `json:"ref"`               // advisory reference; "" with NoID => nil ID
-	Body    int    `json:"body"`              // advisory body variant (title differs)
-	NoAdv   bool   `json:"no_adv,omitempty"`  // finding without advisory
-	NoID    bool   `json:"no_id,omitempty"`   // advisory without ID
-	Extra   string `json:"extra,omitempty"`
+	Ref   string `json:"ref"`              // advisory reference; "" with NoID => nil ID
+	Body  int    `json:"body"`             // advisory body variant (title differs)
+	NoAdv bool   `json:"no_adv,omitempty"` // finding without advisory
+	NoID  bool   `json:"no_id,omitempty"`  // advisory without ID
+	Extra string `json:"extra,omitempty"`
 }
 
 // DetSpec defines a harness detector.
